@@ -233,6 +233,9 @@ def part_sampled_functions(ctx):
 ERR_INPUTS = [
     (['1.5', '3', 'n', 'n'], 'SummationError'), (['1', '7/2', 'n', 'n'], 'SummationError'), (['i', '3', 'n', 'n'], 'SummationError'), (['1', '2+i', 'n', 'n'], 'SummationError'),
     (['infty', 'infty', '2^(0-n)', 'n'], 'SummationError'), (['-infty', '-infty', 'n', 'n'], 'SummationError'),
+    # limits that are NEARLY integers are not integers (truncating them would drop or add a term)
+    (['1', '2.9999999999', 'n', 'n'], 'SummationError'), (['0.9999999999', '3', 'n', 'n'], 'SummationError'), (['1', '3.0000000001', 'n', 'n'], 'SummationError'),
+    (['1', '3 - 2^(0-40)', 'n', 'n'], 'SummationError'), (['1 + 2^(0-45)', '3', 'n', 'n'], 'SummationError'), (['1', '0.1*30 - 2^(0-50)', 'n', 'n'], 'SummationError'),
     (['1', '3', 'n', 'x'], 'SummationError'), (['1', '3', 'n', 'pi'], 'InvalidInput'), (['1', '3', 'n', 'sin'], 'InvalidInput'), (['1', '3', 'n', 'e'], 'InvalidInput'),
     (['1', '3', 'n', '2n'], 'InvalidInput'), (['1', '3', 'n', 'n+1'], 'InvalidInput'),
     (['', '3', 'n', 'n'], 'MissingInput'), (['1', '', 'n', 'n'], 'MissingInput'), (['1', '3', '', 'n'], 'MissingInput'), (['1', '3', 'n', ''], 'MissingInput'),
